@@ -471,3 +471,27 @@ def serialize(ctx):
     good = [('call', 'data_pack', (('bytes', el),), ()), ('call', 'data_pack', (el,), ())]
     ctx.require(data in good, q, 'data command serialised as %s, expected data_pack(cmd)' % show(data), fn,
                 'pushes would not be minimal / not re-parsable')
+
+
+@PROP.obligation('C18.nulldata-guard', canaries=[
+    mut.replace_expr('scripts', 'Script.parse_bytesio', 'commands[-2] == op.op_return', 'commands[-1] == op.op_return', 'OP_RETURN guard looks at the data item itself'),
+])
+def nulldata_guard(ctx):
+    """Script.parse_bytesio: a data item that follows OP_RETURN is kept as data and never handed to the speculative nested-script parse.
+    The guard is evaluated right after the item was appended: with commands = [OP_RETURN, <item>] it must be true, with
+    [OP_DUP, <item>] false - i.e. it looks at the command BEFORE the item."""
+    q = 'scripts:Script.parse_bytesio'
+    fn = ctx.repo.func(q)
+    tests = [n for n in ast.walk(fn) if isinstance(n, ast.If) and 'op.op_return' in unparse(n.test) and 'commands' in unparse(n.test)]
+    if len(tests) != 1:
+        ctx.undecided('parse_bytesio: OP_RETURN guard not found')
+    it = Interp(ctx.repo, 'scripts')
+    res = {}
+    for name, first in (('OP_RETURN', 0x6a), ('OP_DUP', 0x76)):
+        st = State(env={'commands': [first, S(('var', 'data'), 'bytes')], 'data': S(('var', 'data'), 'bytes')})
+        v = it.truth(it.eval(tests[0].test, st), st)
+        res[name] = v if isinstance(v, bool) else show(term(v))[:60]
+    ctx.saw('guard `%s` with the item just appended: %s' % (norm(tests[0].test), res))
+    ctx.require(res['OP_RETURN'] is True, q, 'after OP_RETURN the guard evaluates to %s: the payload goes on to the nested-script parse' % res['OP_RETURN'], tests[0],
+                'an OP_RETURN payload whose bytes parse as a script (e.g. 5152535455) is replaced by a nested command list: the type is no longer nulldata and serialize() differs or raises')
+    ctx.require(res['OP_DUP'] is False, q, 'the guard is true although the previous command is not OP_RETURN', tests[0])
